@@ -25,7 +25,8 @@
 (*              address anywhere in the faulting access' page span; destination     *)
 (*              register of a panicking load_imm_jump(_ind) old or new;             *)
 (*  P-either    a blob that ProgramBlob classifies "either" (non-minimal header     *)
-(*              natural, odd z, mask padding bits) may be refused or accepted.      *)
+(*              natural, odd z, mask padding bits) may be refused or accepted; an   *)
+(*              invoke of a machine holding such a blob is not judged.              *)
 (*  P-biggas    an invoke gas above 2^31-1 is judged only when the inner program    *)
 (*              ends within BigCap steps: then g' = g - steps (64-bit).             *)
 EXTENDS PVM, TLC, SequencesExt
@@ -209,6 +210,7 @@ Invoke(o0, m) ==
       oo == W8(o)
   IN IF ~RangeOk(o, oo, U(112), TRUE) THEN <<Panic(o, m)>>
      ELSE IF ~HasM(m, n) THEN <<Continue(SetW7(o, RcWHO), m)>>
+     ELSE IF BlobClass(m[SmallOf(n)].blob) # "wellformed" THEN <<>>          \* P-either: what such a blob decodes to is not fixed here
      ELSE LET k == SmallOf(n)
               buf == GetBytes(o, oo, 112)
               g == Sub(buf, 1, 8)
